@@ -81,6 +81,7 @@ class World:
         import cv2
         from mc import pipeline
         self.subset, self.ids = subset, ID_SETS[ids_i][:npages]
+        self.skip_missing_xml = ids_i % 2 == 1          # every second id set also passes --skipp-missing-xml (every image has its PAGE XML)
         self.root = os.path.join(TMP, f'c17-{os.getpid()}-{tag}')
         shutil.rmtree(self.root, ignore_errors=True)
         os.makedirs(os.path.join(self.root, 'img'))
@@ -105,6 +106,8 @@ class World:
                  'alto': '--output-alto-path', 'lines': '--output-line-path'}
         for k in self.subset:
             a += [flags[KINDS[k]], os.path.join(self.out, KINDS[k])]
+        if self.skip_missing_xml:
+            a += ['--skipp-missing-xml']
         return a
 
     def run(self, crash_before=None):
@@ -316,6 +319,12 @@ def explore(shard, ctx, tier, only_hist=None):
                 world.restore(snap)
                 w = len(world.run(None)['writes']) if True else 0
                 ctx.executed()
+                # "a kill after the last write": the tree this uninterrupted run leaves behind is a state too (nothing is left to do from it)
+                s_done = world.snapshot()
+                k_done = canon(s_done)
+                if k_done not in seen:
+                    seen[k_done] = (s_done, hist + [w])
+                    nxt.append(k_done)
                 for k in range(w):
                     world.restore(snap)
                     r = world.run(k)
